@@ -303,6 +303,13 @@ def gen_hier_schema(rng):
         classes[1]["disc"], classes[1]["tag"] = "nofield", False
 
     def base_ty():
+        if not classes[1].get("disc") and rng.random() < 0.25:
+            # a discriminated union: Annotated[Union[Base, Leaf], Discriminator(...)]
+            wf = rng.random() < 0.6 or kind not in NO_FORMAT_METHOD
+            sb, sp_ = rng.choice([(True, False), (True, True), (False, True)])
+            u = ["discu", canon_union(schema, rng.sample([0, 1], 2)), wf, sb, sp_]
+            if discu_callable(schema, u):
+                return u
         if classes[1].get("disc") or rng.random() < 0.3:
             return ["dc", 1]
         wf, sup = rng.random() < 0.6 or kind not in NO_FORMAT_METHOD, rng.random() < 0.4
@@ -325,6 +332,13 @@ def callable_variants(schema, c, vs):
     ok = [v for v in vs if (L.ctx_on(schema, v) or not L.ctx_on(schema, c))
           and set(L.class_flags(schema, c)) <= set(L.class_flags(schema, v))]
     return ok
+
+
+def discu_callable(schema, t):
+    """variants of a discriminated union whose to_dict accepts the keywords of at least one member's call expression"""
+    vs = L.discu_variants(schema, t[1], t[2], t[3], t[4])
+    return [v for v in vs if any((L.ctx_on(schema, v) or not L.ctx_on(schema, m))
+                                 and set(L.class_flags(schema, m)) <= set(L.class_flags(schema, v)) for m in t[1])]
 
 
 def substitutable(schema, c):
@@ -408,8 +422,13 @@ def gen_value(rng, schema, t, depth, uid, toml, maxd=4):
         return ["list", t[1], [gen_value(rng, schema, t[2], depth + 1, uid, toml, maxd) for _ in range(n)]]
     if t[0] == "union":
         return gen_value(rng, schema, ["dc", rng.choice(t[1])], depth, uid, toml, maxd)
+    if t[0] == "discu":
+        vs = discu_callable(schema, t)
+        return gen_value(rng, schema, ["dc!", rng.choice(vs)], depth, uid, toml, maxd)
     c = t[1]
-    if t[0] == "disc":
+    if t[0] == "dc!":
+        pass      # exactly this class
+    elif t[0] == "disc":
         c = rng.choice(callable_variants(schema, c, L.disc_variants(schema, c, t[2], t[3])))
     elif schema["classes"][c].get("disc"):
         c = rng.choice(callable_variants(schema, c, L.disc_variants(schema, c, schema["classes"][c]["disc"] != "nofield", False,
@@ -725,6 +744,7 @@ def run(ctx: vlib.Ctx):
             for x in schema["names"].values())))
         ctx.hist("schema_features", "config-discriminator with field", int(any(k.get("disc") in ("field", True) for k in schema["classes"])))
         ctx.hist("schema_features", "config-discriminator without field", int(any(k.get("disc") == "nofield" for k in schema["classes"])))
+        ctx.hist("schema_features", "discriminated Union", int(any("discu" in json.dumps(x["ty"]) for x in schema["names"].values())))
         ctx.hist("schema_features", "variant_tagger_fn", int(any(k.get("tagger") for k in schema["classes"])))
         ctx.hist("schema_features", "nested class-level discriminator", int(any(k.get("disc") and k["parent"] is not None for k in schema["classes"])))
         ctx.hist("schema_features", "Annotated discriminator", int(any("disc" in json.dumps(x["ty"]) for x in schema["names"].values())))
